@@ -355,6 +355,15 @@ pub fn read_props(r: &mut Rd<'_>, ctx: Ctx) -> Result<Vec<Prop>, Bad> {
     }
     let mut sub = Rd::new(&r.b[r.i..r.i + len]);
     r.i += len;
+    read_props_inner(&mut sub, ctx).map_err(|e| match e {
+        // anything wrong *inside* a property block is its own class: the block as a whole was
+        // delimited correctly, so the packet framing is intact
+        Bad::Malformed(_, why) => Bad::Malformed(MalClass::Other, why),
+        other => other,
+    })
+}
+
+fn read_props_inner(sub: &mut Rd<'_>, ctx: Ctx) -> Result<Vec<Prop>, Bad> {
     let mut out: Vec<Prop> = Vec::new();
     while sub.left() > 0 {
         let id = sub.varint()?;
@@ -1071,11 +1080,15 @@ fn decode_server_body(fh: &Fixed, body: &[u8]) -> Result<SPacket, Bad> {
                 return mal(MalClass::Qos3, "PUBLISH QoS 3");
             }
             if qos == 0 && dup {
-                return mal(MalClass::BadFlags, "DUP set on QoS 0 PUBLISH");
+                // a sender-side rule ([MQTT-3.3.1-2]); receivers commonly ignore it
+                return mal(MalClass::Other, "DUP set on QoS 0 PUBLISH");
             }
             let traw = r.bin()?;
-            if !utf8_ok(traw) {
+            if std::str::from_utf8(traw).is_err() {
                 return mal(MalClass::BadTopicUtf8, "PUBLISH topic is not valid UTF-8");
+            }
+            if !utf8_ok(traw) {
+                return mal(MalClass::Other, "PUBLISH topic contains U+0000");
             }
             let topic = traw.to_vec();
             let pid = if qos > 0 {
